@@ -23,6 +23,9 @@ CONSTS = {
     "core::num::<impl usize>::MIN": 0,
     # rust-bitcoin: Weight is modelled by its weight-unit count
     "bitcoin::Weight::MAX_BLOCK": 4_000_000,
+    "std::f64::INFINITY": float("inf"), "std::f64::MAX": 1.7976931348623157e308,
+    "core::f64::<impl f64>::INFINITY": float("inf"), "core::f64::<impl f64>::MAX": 1.7976931348623157e308,
+    "std::f64::consts::INFINITY": float("inf"),
 }
 
 
@@ -85,6 +88,8 @@ def items_of(v):
             return r
     if isinstance(v, PyVec):
         return v.items
+    if type(v).__name__ == "PyMap":
+        return list(v.pairs)
     if isinstance(v, PyIter):
         return v.rest()
     if isinstance(v, list):
@@ -967,6 +972,11 @@ def _iter_adapt(name):
                 target = targs[1]
             if target.startswith("std::collections::BTreeSet<") or target.startswith("std::collections::HashSet<"):
                 return PySet(xs)
+            if target.startswith("std::collections::BTreeMap<") or target.startswith("std::collections::HashMap<"):
+                mp = PyMap()
+                for kv in xs:
+                    _map_insert(m, [mp, kv[0], kv[1]], c)
+                return mp
             if target.startswith("std::result::Result<") or target.startswith("std::option::Option<"):
                 isres = target.startswith("std::result::Result<")
                 out = []
@@ -2177,3 +2187,172 @@ def _try_into(m, a, c):
     if isinstance(v, Term):
         return Term("try_into", v, tgt)
     return NOT_HANDLED
+
+
+# ---- maps (BTreeMap / HashMap): association lists; iteration order = key order when keys are comparable ----------
+
+class PyMap(object):
+    __slots__ = ("pairs",)
+
+    def __init__(self, pairs=None):
+        self.pairs = list(pairs or [])
+
+    def find(self, k, m=None):
+        for i, (kk, _) in enumerate(self.pairs):
+            if _keys_equal(kk, k, m):
+                return i
+        return -1
+
+    def order(self):
+        try:
+            self.pairs.sort(key=lambda kv: _sort_key(kv[0]))
+        except (TypeError, Unsupported):
+            pass
+
+    def __repr__(self):
+        return "map%r" % (self.pairs,)
+
+
+def _keys_equal(a, b, m):
+    a, b = deref(a), deref(b)
+    if isinstance(a, Adt) and m is not None and a.path in m.facts.adts:
+        r = _eq(m, [a, b], {})
+        if isinstance(r, bool):
+            return r
+    return a == b
+
+
+_MAPS = ["std::collections::BTreeMap::<K, V>::", "std::collections::BTreeMap::<K, V, A>::",
+         "std::collections::HashMap::<K, V, S>::", "std::collections::HashMap::<K, V>::",
+         "std::collections::HashMap::<K, V, S, A>::"]
+
+
+def mapreg(*names):
+    def deco(f):
+        for pre in _MAPS:
+            for n in names:
+                TABLE[pre + n] = f
+        return f
+    return deco
+
+
+@mapreg("new")
+def _map_new(m, a, c):
+    return PyMap()
+
+
+@mapreg("insert")
+def _map_insert(m, a, c):
+    mp, k, v = deref(a[0]), a[1], a[2]
+    if not isinstance(mp, PyMap):
+        raise Unsupported("map insert on %r" % (mp,))
+    i = mp.find(k, m)
+    if i >= 0:
+        old = mp.pairs[i][1]
+        mp.pairs[i] = (mp.pairs[i][0], v)
+        return some(old)
+    mp.pairs.append((k, v))
+    mp.order()
+    return NONE
+
+
+@mapreg("get", "get_mut")
+def _map_get(m, a, c):
+    mp = deref(a[0])
+    if not isinstance(mp, PyMap):
+        return NOT_HANDLED
+    i = mp.find(a[1], m)
+    if i < 0:
+        return NONE
+    if c.get("name") == "get_mut":
+        return some(MutRef(lambda: mp.pairs[i][1], lambda x: mp.pairs.__setitem__(i, (mp.pairs[i][0], x))))
+    return some(mp.pairs[i][1])
+
+
+@mapreg("contains_key")
+def _map_contains(m, a, c):
+    mp = deref(a[0])
+    return mp.find(a[1], m) >= 0
+
+
+@mapreg("remove")
+def _map_remove(m, a, c):
+    mp = deref(a[0])
+    i = mp.find(a[1], m)
+    if i < 0:
+        return NONE
+    return some(mp.pairs.pop(i)[1])
+
+
+@mapreg("len")
+def _map_len(m, a, c):
+    return len(deref(a[0]).pairs)
+
+
+@mapreg("is_empty")
+def _map_is_empty(m, a, c):
+    return not deref(a[0]).pairs
+
+
+@mapreg("iter", "into_iter")
+def _map_iter(m, a, c):
+    return PyIter(list(deref(a[0]).pairs))
+
+
+@mapreg("keys", "into_keys")
+def _map_keys(m, a, c):
+    return PyIter([k for k, _ in deref(a[0]).pairs])
+
+
+@mapreg("values", "into_values")
+def _map_values(m, a, c):
+    return PyIter([v for _, v in deref(a[0]).pairs])
+
+
+@mapreg("values_mut")
+def _map_values_mut(m, a, c):
+    mp = deref(a[0])
+
+    def mk(i):
+        return MutRef(lambda: mp.pairs[i][1], lambda x: mp.pairs.__setitem__(i, (mp.pairs[i][0], x)))
+    return PyIter([mk(i) for i in range(len(mp.pairs))])
+
+
+@mapreg("append")
+def _map_append(m, a, c):
+    x, y = deref(a[0]), deref(a[1])
+    for k, v in y.pairs:
+        _map_insert(m, [x, k, v], c)
+    y.pairs[:] = []
+    return ()
+
+
+@mapreg("clone")
+def _map_clone(m, a, c):
+    return PyMap([(dcopy(k), dcopy(v)) for k, v in deref(a[0]).pairs])
+
+
+@reg("std::mem::take")
+def _mem_take(m, a, c):
+    x = a[0]
+    if isinstance(x, MutRef):
+        old = x.get()
+        if isinstance(old, PyMap):
+            x.set(PyMap())
+            return old
+        if isinstance(old, PyVec) and not isinstance(old, PySet):
+            x.set(PyVec())
+            return old
+        if is_opt(old):
+            x.set(NONE)
+            return old
+    old = deref(x)
+    if isinstance(old, PyMap):
+        cp = PyMap(list(old.pairs))
+        old.pairs[:] = []
+        return cp
+    if isinstance(old, PyVec):
+        cp = PyVec(list(old.items))
+        old.items[:] = []
+        return cp
+    raise Unsupported("mem::take of %r" % (old,))
